@@ -148,10 +148,12 @@ def project(s1, s2, p, delta=0.0):
 def box_around_point(p, dist):
     lat, lon = p
     latr, lonr = radians(lat), radians(lon)
-    # diag_dist = sqrt(2 * dist ** 2)
-    diag_dist = dist
-    lat_t, lon_r = destination_radians(latr, lonr, radians(45), diag_dist)
-    lat_b, lon_l = destination_radians(latr, lonr, radians(225), diag_dist)
+    # Bounding box of the circle with radius dist around p: dist is the half-width
+    # of the box (not its diagonal), otherwise points within dist fall outside the box.
+    d = dist / earth_radius
+    lat_t, lat_b = latr + d, latr - d
+    dlon = asin(sin(d) / cos(latr))
+    lon_l, lon_r = lonr - dlon, lonr + dlon
     lat_t, lon_r = degrees(lat_t), degrees(lon_r)
     lat_b, lon_l = degrees(lat_b), degrees(lon_l)
     return lat_b, lon_l, lat_t, lon_r
